@@ -427,6 +427,11 @@ def is_instance(value: Any, type_: Any) -> bool:
     if type_ is int and (value is True or value is False):
         return False
 
+    if is_union(type_):
+        # Check the members one by one. isinstance() accepts `X | Y` unions directly,
+        # which would let a bool through for `int | None` (but not for Optional[int])
+        return any(is_instance(value, t) for t in get_args(type_))
+
     try:
         # As described in PEP 484 - section: "The numeric tower"
         if (type_ in [float, complex] and isinstance(value, (int, float))) or isinstance(
